@@ -432,6 +432,34 @@ def min_kept_prob(mod):
 
 
 # =============================================================================== strategies
+RAW_KEYS = ("raw", "raw_u", "raw_p", "raw_v")
+
+
+def _densify(obj, phase):
+    """Hypothesis float arrays are mostly 'fill' values (many equal entries => rank-deficient, commuting operands).
+    About three quarters of the cases add a fixed dense pattern (a deterministic function of one drawn phase and the entry index,
+    computed at generation time, so the case stays plain data) to every Ginibre array.  Equal arrays stay equal
+    (the aligned operands share raw_v == raw_u)."""
+    if isinstance(obj, dict):
+        return {k: ([float(x + 0.6 * math.sin(phase + 2.399963 * i + 0.37 * len(v))) for i, x in enumerate(v)]
+                    if k in RAW_KEYS and isinstance(v, list) else _densify(v, phase)) for k, v in obj.items()}
+    if isinstance(obj, list):
+        return [_densify(v, phase) for v in obj]
+    return obj
+
+
+def _dense(strategy):
+    @st.composite
+    def s(draw):
+        case = draw(strategy)
+        if draw(st.booleans()) or draw(st.booleans()):
+            case = _densify(case, draw(st.floats(0.0, 6.25)))
+            case["dense"] = True
+        return case
+
+    return s()
+
+
 def _mp_case(shape, m, max_per=2, multi_shape=True):
     d = _d(shape)
 
@@ -550,7 +578,7 @@ def pair_case(draw, tier, pairs=PAIRS, force_ipr=None):
 
 
 def pairwise_strategy(tier):
-    return pair_case(tier)
+    return _dense(pair_case(tier))
 
 
 # =============================================================================== facet 1: pairwise
@@ -587,6 +615,7 @@ def _label_pair(ctx, case, a, b, exp):
 
 
 def check_pairwise(case, ctx):
+    ctx.label("raw:dense" if case.get("dense") else "raw:hypothesis-sparse")
     from quara.objects.operators import compose_qoperations
 
     shape = case["shape"]
@@ -743,6 +772,7 @@ def instrument_case(draw, tier):
 
 
 def check_instrument(case, ctx):
+    ctx.label("raw:dense" if case.get("dense") else "raw:hypothesis-sparse")
     shape = case["shape"]
     d = _d(shape)
     n = d * d
@@ -766,6 +796,15 @@ def check_instrument(case, ctx):
     pmod = model(case["povm"])
     es = pmod["E"]
     m = len(es)
+    eig = [np.linalg.eigvalsh(rm.herm(e)) for e in es]
+    lam_min = min(float(w[0]) for w in eig)
+    if sub == "mode0" and lam_min < 1e-3 and ipr:
+        # the Choi matrix of rho -> S rho S is rank one (boundary of the CP cone); sqrtm noise of 1e-9 at a zero
+        # eigenvalue, partly cut by truncate_hs at 1e-13, moves its eigenvalues by ~2e-13, i.e. inside the verdict
+        # margin of quara's own atol=1e-13 validation: the instrument is built without that validation and judged
+        # by the model with the algorithmic tolerance instead
+        ipr = False
+        ctx.label("mode0:ipr-dropped-verdict-margin")
     qp = q_build(pmod, c_sys, basis, ipr)
     ctx.label("povm-kind:" + str(case["povm"].get("kind")))
 
@@ -785,8 +824,6 @@ def check_instrument(case, ctx):
         ctx.nontrivial(True)
         return
 
-    eig = [np.linalg.eigvalsh(rm.herm(e)) for e in es]
-    lam_min = min(float(w[0]) for w in eig)
     noncomm = any(rm.commutator_norm(es[0], e) > 1e-3 for e in es[1:])
 
     if sub == "mode0":
@@ -934,6 +971,7 @@ def _tree_str(t):
 
 
 def check_bracketing(case, ctx):
+    ctx.label("raw:dense" if case.get("dense") else "raw:hypothesis-sparse")
     from quara.objects.operators import compose_qoperations
 
     shape = case["shape"]
@@ -1129,6 +1167,7 @@ def closure_case(draw, tier):
 
 
 def check_closure(case, ctx):
+    ctx.label("raw:dense" if case.get("dense") else "raw:hypothesis-sparse")
     from quara.objects.operators import compose_qoperations
 
     sub = case["sub"]
@@ -1232,21 +1271,21 @@ FACETS = {
         "min_nontrivial": 100,
     },
     "instrument_povm": {
-        "strategy": instrument_case,
+        "strategy": lambda tier: _dense(instrument_case(tier)),
         "check": check_instrument,
         "budget": {"quick": {"examples": 900, "shards": 3}, "thorough": {"examples": 20000, "shards": 16}},
         "nontrivial": "non-commuting elements / rank-deficient element / different Kraus counts; every mode-1 and invalid-argument case",
         "min_nontrivial": 50,
     },
     "bracketing": {
-        "strategy": chain_case,
+        "strategy": lambda tier: _dense(chain_case(tier)),
         "check": check_bracketing,
         "budget": {"quick": {"examples": 600, "shards": 12}, "thorough": {"examples": 12000, "shards": 16}},
         "nontrivial": ">= 2 measurement factors with different outcome counts, or a non-commuting neighbouring pair",
         "min_nontrivial": 50,
     },
     "closure": {
-        "strategy": closure_case,
+        "strategy": lambda tier: _dense(closure_case(tier)),
         "check": check_closure,
         "budget": {"quick": {"examples": 900, "shards": 4}, "thorough": {"examples": 20000, "shards": 16}},
         "nontrivial": "as pairwise; every rejection case",
